@@ -2,6 +2,7 @@
 package c14
 
 import (
+	"encoding/binary"
 	"fmt"
 	"os"
 	"strconv"
@@ -253,6 +254,36 @@ var uriSeeds = []string{
 	"/a/b/", "/a//b", "a/=b", "/8=a/32=b/seg=3", "/localhost/nfd", "32=", "/32=/", "/8=/", "8=", "/1=abc", "1=abcd", "2=00", "50=7", "54=7",
 }
 
+// craftedCollision returns two different 48..63-byte generic components with the same XXH64 hash: XXH64 folds
+// 32-byte stripes into four independent lanes with invertible arithmetic, so a change of one 8-byte word is
+// cancelled by a computed change of the word 32 bytes further on (same lane, next stripe). The component hash
+// input is 16 header bytes followed by the value, which only shifts the lane. Computed here, not by the code
+// under test.
+func craftedCollision(r *common.Rand) (enc.Component, enc.Component) {
+	const p1, p2 uint64 = 11400714785074694791, 14029467366897019727
+	rol := func(x uint64, k uint) uint64 { return x<<k | x>>(64-k) }
+	round := func(acc, in uint64) uint64 { return rol(acc+in*p2, 31) * p1 }
+	inv := p2
+	for i := 0; i < 6; i++ {
+		inv *= 2 - p2*inv
+	}
+	n := 48 + r.Intn(16)
+	v1 := r.Bytes(n)
+	v2 := append([]byte(nil), v1...)
+	off := 8 * r.Intn(2) // word 0 or word 1 of the value (lanes 2 and 3 of the first stripe)
+	v2[off+r.Intn(8)] ^= byte(1 << r.Intn(8))
+	// lane seeds (seed 0): v3 = 0, v4 = -p1 for the lanes the value's first two words fall into
+	seed := uint64(0)
+	if off == 8 {
+		seed = ^uint64(p1) + 1 // -p1 mod 2^64
+	}
+	s1 := round(seed, binary.LittleEndian.Uint64(v1[off:]))
+	s1x := round(seed, binary.LittleEndian.Uint64(v2[off:]))
+	w2 := binary.LittleEndian.Uint64(v1[off+32:])
+	binary.LittleEndian.PutUint64(v2[off+32:], w2+(s1-s1x)*inv)
+	return enc.Component{Typ: 8, Val: v1}, enc.Component{Typ: 8, Val: v2}
+}
+
 var patSeeds = []string{"", "/", "<", ">", "<>", "<a>", "<=a>", "<a=>", "<a=b=c>", "<v=ver>", "<seg=n>", "<8=x>", "<0=x>", "<70000=x>",
 	"<18446744073709551616=x>", "/a/<b>", "/a/<v=x>/", "<a", "a>", "<<a>>", "</>", "<a/b>", "32=metadata/<v=versionNumber>/seg=0",
 	"<=>", "<==>", "< >", "<\x00>", "/<>/<>", "<params-sha256=d>", "<Seg=1>"}
@@ -384,6 +415,16 @@ func gen(g *common.Gen) {
 				}
 			}
 			g.Stat("name-triples")
+		}
+		if r.Chance(1, 3) {
+			// two different names that XXH64 cannot tell apart, and what a hash-keyed table does with them
+			cx, cy := craftedCollision(r)
+			x, y := common.NameText(enc.Name{cx}), common.NameText(enc.Name{cy})
+			g.Op("hx %s %s", x, y)
+			for _, kind := range []string{"pit", "trie", "mem"} {
+				g.Op("tabx %s +%s ?%s ?%s", kind, x, y, x)
+			}
+			g.Stat("crafted-collision-pairs")
 		}
 		for k := 0; k < 6; k++ {
 			s := genString(r, g)
@@ -677,8 +718,10 @@ func exec(op string) string {
 			buf[i] ^= 0xa5
 		}
 		return common.NameText(cl) + " " + common.CompText(last)
-	case "tabr":
+	case "tabr", "tabx":
 		return execTabr(f[1], f[2:])
+	case "hx":
+		return fmt.Sprintf("%x %x", common.ParseNameText(f[1]).Hash(), common.ParseNameText(f[2]).Hash())
 	case "h":
 		return fmt.Sprintf("%x", common.ParseNameText(f[1]).Hash())
 	case "hc":
